@@ -715,6 +715,13 @@ def _dtype(p):
                 return numpoly.polynomial(x, **kw)
             if how == "aspolynomial":
                 return numpoly.aspolynomial(x, **kw)
+            if how in ("aspolynomial_names", "polynomial_names") and isinstance(x, numpoly.ndpoly):
+                forms = [tuple(x.names), list(x.names), x.indeterminants]
+                names = forms[p.get("names_form", 0) % 3]
+                f = numpoly.aspolynomial if how == "aspolynomial_names" else numpoly.polynomial
+                return f(x, names=names, **kw)
+            if how in ("aspolynomial_names", "polynomial_names"):
+                return numpoly.aspolynomial(x, **kw)
             if how == "astype":
                 import warnings
                 with warnings.catch_warnings():
